@@ -2,10 +2,12 @@
 # usage: tools_neutral_all.sh <worker> <nworkers> [checks...]
 # Applies every behaviour-preserving patch kept under seeded/neutral*/<ID>/patch.diff (worker i takes
 # every nworkers-th one) to a scratch worktree of /repo and runs the quick checks against it
-# (VERIF_REPO / VERIF_OUT: /repo itself is never modified). Prints one line per patch; any line
+# (all of them if checks are listed, else those whose subject the patch touches; VERIF_REPO /
+# VERIF_OUT: /repo itself is never modified). Prints one line per patch; any line
 # starting with "---" is an alarm on code in which the properties hold.
 cd "$(dirname "$0")"
 W=$1; N=$2; shift 2
+EXPLICIT="$*"
 CHECKS=${*:-C01 C02 C03 C04 C05 C06 C07 C08 C09 C10 C11 C12 C13 C14 C15 C16 C17 C18 C19 C20}
 export GOFLAGS=-mod=mod GOPROXY=off GOSUMDB=off GOTOOLCHAIN=local
 i=0
@@ -18,7 +20,21 @@ for pd in seeded/neutral*/C*/patch.diff; do
   if ! git -C $T apply $PWD/$pd 2>/dev/null && ! git -C $T apply -3 $PWD/$pd >/dev/null 2>&1; then echo "=== $tag PATCH DOES NOT APPLY (tree has moved on)"; git -C /repo worktree remove --force $T; continue; fi
   if ! (cd $T && go build -tags verif ./... >/dev/null 2>&1); then echo "=== $tag DOES NOT BUILD"; git -C /repo worktree remove --force $T; continue; fi
   bad=0
-  for c in $CHECKS; do
+  checks=$CHECKS
+  if [ -z "$EXPLICIT" ]; then
+    # the checks whose subject the patch touches: root package -> C01..C11, C20; m3 -> C12..C16; ...
+    checks=""
+    files=$(grep -a "^+++ b/" $PWD/$pd | sed 's|+++ b/||')
+    echo "$files" | grep -q -v "/" && checks="$checks C01 C02 C03 C04 C05 C06 C07 C08 C09 C10 C11 C20"
+    echo "$files" | grep -q "^instrument/" && checks="$checks C10"
+    echo "$files" | grep -q "^internal/" && checks="$checks C05 C12 C13 C14 C20"
+    echo "$files" | grep -q "^m3/" && checks="$checks C12 C13 C14 C15 C16"
+    echo "$files" | grep -q "^prometheus/" && checks="$checks C17"
+    echo "$files" | grep -q "^statsd/" && checks="$checks C18"
+    echo "$files" | grep -q "^multi/" && checks="$checks C19"
+    checks=$(echo $checks | tr ' ' '\n' | sort -u | tr '\n' ' ')
+  fi
+  for c in $checks; do
     out=$(VERIF_REPO=$T VERIF_OUT=$T-out ./check $c --tier quick 2>&1 | grep -a -v "^WARNING\|^KNOWN-FINDING")
     rc=$(echo "$out" | grep -a -c "^VIOLATION"); inc=$(echo "$out" | grep -a -c "^INCONCLUSIVE"); ok=$(echo "$out" | grep -a -c "^OK property=$c")
     if [ "$rc" != "0" ] || [ "$inc" != "0" ] || [ "$ok" != "1" ]; then bad=1; echo "--- $tag/$c: violations=$rc inconclusive=$inc ok=$ok"; echo "$out" | grep -a -v "^VIOLATION" | cut -c1-500 | head -6; mkdir -p /tmp/neutral-keep/$tag-$c; cp -r $T-out/replays/$c /tmp/neutral-keep/$tag-$c/ 2>/dev/null; fi
